@@ -25,6 +25,8 @@ import (
 
 // Op is one NETCONF operation with its arguments.
 type Op struct {
+	// Bulk (edit-config): this many further elements in front of the closing tag of Config
+	Bulk       int    `json:"bulk,omitempty"`
 	Kind       string `json:"kind"`
 	Source     string `json:"source,omitempty"`
 	Target     string `json:"target,omitempty"`
@@ -54,6 +56,17 @@ func genStore(t *rapid.T) string {
 		"my-store", "store_2", "x.y", "données", "оперативный", "a",
 		"Candidate-B", "MyStore", "STAGING", "Données", "Z",
 	}).Draw(t, "store")
+}
+
+// config is the configuration payload handed to EditConfig.
+func (o Op) config() string {
+	if o.Bulk == 0 {
+		return o.Config
+	}
+
+	i := strings.LastIndex(o.Config, "</")
+
+	return o.Config[:i] + "<bulk>" + strings.Repeat("<e>élément — ok</e>", o.Bulk) + "</bulk>" + o.Config[i:]
 }
 
 func genFragment(t *rapid.T) string {
@@ -97,6 +110,8 @@ func genXpath(t *rapid.T) string {
 		`/a/b[c>1]/d`,
 		`/системы/интерфейс[@имя="x"]`,
 		`/x[y='"']`,
+		`/a[descr="two  blanks   and three"]/b`,
+		`/a[starts-with(descr,  '  lead')]`,
 	}).Draw(t, "xpath") + rapid.StringMatching(`(/[a-z]{1,5}){0,3}`).Draw(t, "xpathTail")
 }
 
@@ -136,6 +151,11 @@ func gen(t *rapid.T) Case {
 			op.Defaults = rapid.SampledFrom([]string{"", "", "report-all", "report-all-tagged", "trim", "explicit"}).Draw(t, "defaults")
 		case "edit-config":
 			op.Target = genStore(t)
+
+			// now and then hundreds of kilobytes (a whole configuration in one edit-config)
+			if rapid.IntRange(0, 39).Draw(t, "huge") == 0 {
+				op.Bulk = rapid.IntRange(7000, 20000).Draw(t, "hugeN")
+			}
 			// the config root as callers write it: bare, with namespace declarations, prefixed
 			switch rapid.IntRange(0, 3).Draw(t, "configRoot") {
 			case 0:
@@ -253,7 +273,7 @@ func session(c Case, selfClosing, noHeader bool) (post []byte, msgs []sent, reqs
 
 			r, err = d.GetConfig(op.Source, oo...)
 		case "edit-config":
-			r, err = d.EditConfig(op.Target, op.Config)
+			r, err = d.EditConfig(op.Target, op.config())
 		case "copy-config":
 			r, err = d.CopyConfig(op.Source, op.Target)
 		case "delete-config":
@@ -520,7 +540,7 @@ func checkContent(op Op, lastID *int, input []byte, verbatim bool) error {
 			return err
 		}
 
-		if verbatim && !bytes.Contains(input, []byte("</target>"+op.Config+"</edit-config>")) {
+		if verbatim && !bytes.Contains(input, []byte("</target>"+op.config()+"</edit-config>")) {
 			return fmt.Errorf("config payload not transmitted verbatim")
 		}
 
